@@ -21,7 +21,11 @@ case "$MODE" in
     if [ -x "/verif/checks/$ID.sh" ]; then
       exec "/verif/checks/$ID.sh" "$MODE"
     fi
-    exec /verif/target/debug/vcheck "$ID" --tier "$MODE" ;;
+    /verif/target/debug/vcheck "$ID" --tier "$MODE"
+    rc=$?
+    # 3 = the checker crashed and no traced case reproduces it: ask AddressSanitizer
+    [ $rc -eq 3 ] && exec /verif/checks/asan_traces.sh "$ID" "/verif/target/trace/$ID"
+    exit $rc ;;
   thorough)
     # generated search first; the coverage-guided campaigns only if it held
     if [ -x "/verif/checks/$ID.sh" ]; then
@@ -30,6 +34,7 @@ case "$MODE" in
       /verif/target/debug/vcheck "$ID" --tier "$MODE"
     fi
     rc=$?
+    [ $rc -eq 3 ] && exec /verif/checks/asan_traces.sh "$ID" "/verif/target/trace/$ID"
     [ $rc -ne 0 ] && exit $rc
     exec /verif/checks/fuzz_campaign.sh "$ID" ;;
   replay)
